@@ -204,13 +204,13 @@ def search(ctx):
         sc_ = max(1.0, float(np.abs(want).max()))
         if not np.all(np.isfinite(holo.values)) or not np.all(np.isfinite(fld.values)):
             ctx.violation("C01:nonfinite:%s" % name, "non-finite values from %s" % name, dict(kind="finite", **info))
-        elif float(np.abs(holo - want).max()) > 1e-12 * sc_:
+        elif not (float(np.abs(holo - want).max()) <= 1e-12 * sc_):
             ctx.violation("C01:holo-formula:%s" % name, "hologram != |s E + p|^2 (max dev %.3g)" % float(np.abs(holo - want).max()),
                           dict(kind="formula", **info))
         wi = np.abs(E.sel(vector='x')) ** 2 + np.abs(E.sel(vector='y')) ** 2
-        if float(np.abs(inten - wi).max()) > 1e-12 * max(1.0, float(wi.max())):
+        if not (float(np.abs(inten - wi).max()) <= 1e-12 * max(1.0, float(wi.max()))):
             ctx.violation("C01:intensity-formula:%s" % name, "intensity != |E|^2", dict(kind="formula", **info))
-        if float(np.abs(h0.values - 1).max()) > 1e-15:
+        if not (float(np.abs(h0.values - 1).max()) <= 1e-15):
             ctx.violation("C01:scaling-zero:%s" % name, "scaling 0 does not give exactly 1 (max dev %.3g)" % float(np.abs(h0.values - 1).max()),
                           dict(kind="scaling0", **info))
         # lies on exactly the detector's pixel coordinates, dims as the detector
